@@ -124,6 +124,20 @@ func simIssues(c *CompileResult) []Issue {
 	if c.Sim.Hang != "" {
 		out = append(out, Issue{Class: "hang@" + topRepoFrame(c.Sim.CrashStack), Detail: c.Sim.Hang})
 	}
+	for _, r := range c.Sim.Races {
+		// kind|site of the earlier write|site of the later write|goroutines
+		f := strings.SplitN(r, "|", 4)
+		if len(f) < 4 {
+			continue
+		}
+		if f[0] == "map-write" {
+			out = append(out, Issue{Class: "crash:concurrent-map-write@" + f[1] + "+" + f[2],
+				Detail: fmt.Sprintf("%s write the same map at %s and %s with no happens-before edge between the writes: on a multi-core machine the Go runtime aborts with 'fatal error: concurrent map writes'", f[3], f[1], f[2])})
+		} else {
+			out = append(out, Issue{Class: "unsynchronised-update@" + f[1] + "+" + f[2],
+				Detail: fmt.Sprintf("%s update the same location at %s and %s with no happens-before edge between the updates (one of them can be lost)", f[3], f[1], f[2])})
+		}
+	}
 	if c.Done && c.Sim.LiveAtEnd > 0 {
 		out = append(out, Issue{Class: "goroutines-outlive-compile", Detail: fmt.Sprintf("%d parser goroutine(s) still running when the compiler finished", c.Sim.LiveAtEnd)})
 	}
